@@ -26,8 +26,12 @@ class LieProp:
         self.id = pid
         self.ops = set(ops)
         self.props_files = props_files
-        self.props_module = 'SmoothProps.' + pid
-        self.lean_targets = ['SmoothProps.' + pid]
+        # C02, C04, C05 also carry the source-tie theorems (coefficient code regenerated from the C++)
+        agg = pid in ('C02', 'C04', 'C05')
+        if agg:
+            self.props_files = list(props_files) + ['SmoothProps/SrcTie.lean']
+        self.props_module = 'SmoothProps.' + pid + ('All' if agg else '')
+        self.lean_targets = [self.props_module]
         self.audit_fn = audit_fn
         self.tol = tol
         self.rule = rule
